@@ -228,7 +228,6 @@ class StingyConfigurator(pg.All):
         super().__init__(*propositions, variable=id)
 
     @property
-    @functools.lru_cache
     def ge_polyhedron(self) -> pnd.ge_polyhedron_config:
 
         """
@@ -238,13 +237,17 @@ class StingyConfigurator(pg.All):
             -------
                 out : :class:`puan.ndarray.ge_polyhedron_config`
         """
-        ge_polyhedron = self.to_ge_polyhedron(True)
-        return pnd.ge_polyhedron_config(
-            ge_polyhedron, 
-            default_prio_vector=ge_polyhedron.A.construct(self.default_prios),
-            variables=ge_polyhedron.variables, 
-            index=ge_polyhedron.index, 
-        )
+        # kept on the instance: two configurators that compare equal (same id)
+        # may still be defined differently, so they must not share a cache entry
+        if not "_ge_polyhedron" in self.__dict__:
+            ge_polyhedron = self.to_ge_polyhedron(True)
+            self.__dict__["_ge_polyhedron"] = pnd.ge_polyhedron_config(
+                ge_polyhedron, 
+                default_prio_vector=ge_polyhedron.A.construct(self.default_prios),
+                variables=ge_polyhedron.variables, 
+                index=ge_polyhedron.index, 
+            )
+        return self.__dict__["_ge_polyhedron"]
 
     @property
     def default_prios(self) -> typing.Dict[str, int]:
@@ -267,7 +270,6 @@ class StingyConfigurator(pg.All):
             )
         )
 
-    @functools.lru_cache
     def leafs(self) -> typing.List[puan.variable]:
 
         """
@@ -277,17 +279,23 @@ class StingyConfigurator(pg.All):
             -------
                 out : List[:class:`variable<puan.variable>`]
         """
-        flatten = self.flatten()
-        return sorted(
-            set(
-                itertools.chain(
-                    filter(
-                        lambda x: type(x) == puan.variable,
-                        flatten
+        if not "_leafs" in self.__dict__:
+            flatten = self.flatten()
+            self.__dict__["_leafs"] = sorted(
+                set(
+                    itertools.chain(
+                        filter(
+                            lambda x: type(x) == puan.variable,
+                            flatten
+                        ),
                     ),
-                ),
+                )
             )
-        )
+        return self.__dict__["_leafs"]
+
+    def __getstate__(self) -> dict:
+        # the memoized polyhedron and leafs are not part of the configurator's definition
+        return dict(filter(lambda x: not x[0] in ["_ge_polyhedron", "_leafs"], self.__dict__.items()))
     
 
     def select(self, *prios: typing.List[typing.Dict[str, int]], solver: typing.Callable = None, only_leafs: bool = False) -> itertools.starmap:
